@@ -86,13 +86,14 @@ def run(cx):
     vlib.write_ndjson(allp, [{"id": p["id"], "ast": p["ast"], "min": p["min"]} for p in prog_rows])
     vout = cx.path("variants.ndjson")
     cx.run([lay, "variants", "-in", allp, "-table", tpath, "-seed", str(cx.seed), "-out", vout], timeout=3000)
-    tried = gaps = nprogs = 0
+    tried = gaps = nprogs = vdead = 0
     for row in vlib.read_ndjson(vout):
         res = row["res"]
         if res.get("k") == "nobase":
             continue
         if res.get("k") != "ok":
             cx.notes.append("variants case %s: %s" % (row["id"], str(res)[:150]))
+            vdead += 1
             continue
         nprogs += 1
         tried += res["tried"]
@@ -103,6 +104,7 @@ def run(cx):
                 b["kind"], b["verdict"][:120], b["src"][:300], res["base"][:300]),
                 {"leg": "layout", "kind": b["kind"], "gap": b["gap"], "verdict": b["verdict"], "variant": b["src"], "original": res["base"]})
     cx.sample({"leg": "layout", "permitted": table})
+    cx.alive(vdead, nprogs + vdead, "layout variants")
 
     # ---------------- (iii) diagnostics
     dout = cx.path("diag.ndjson")
@@ -110,6 +112,7 @@ def run(cx):
     cx.run([lay, "diag", "-in", allp, "-seed", str(cx.seed), "-n", str(nmut), "-out", dout], timeout=3000)
     events = []
     nmutants = 0
+    ddead = dall = 0
     for row in vlib.read_ndjson(dout):
         res = row["res"]
         if res.get("k") == "gopanic":
@@ -117,7 +120,9 @@ def run(cx):
             continue
         if res.get("k") != "ok":
             cx.notes.append("diag case %s: %s" % (row["id"], str(res)[:150]))
+            ddead += 1
             continue
+        dall += 1
         for ev in res.get("events") or []:
             ev["id"] = len(events)
             for k in ("line", "col", "eline", "ecol"):
@@ -125,6 +130,7 @@ def run(cx):
             ev.setdefault("quoted", [])
             ev.setdefault("haspos", False)
             events.append(ev)
+    cx.alive(ddead, dall + ddead, "diagnostics of mutated programs")
     nopos = [e for e in events if not e["haspos"] and e["stage"] != "panic"]
     dmis = []
     if events:
